@@ -29,7 +29,8 @@ TruncDiv(x, d) == IF x >= 0 THEN x \div d ELSE -((-x) \div d)          \* toward
 
 \* a cue / loop slot: an offset of -1 is the stored form of an empty slot
 SlotNorm(o, offField) == IF o = <<>> THEN <<>> ELSE IF o[1][offField] = MinusOne THEN <<>> ELSE o
-Pad8(s, offField) == [k \in 1 .. 8 |-> IF k <= Len(s) THEN SlotNorm(s[k], offField) ELSE <<>>]
+\* (a list of more than eight entries may be refused; if it is stored, every entry must come back)
+Pad8(s, offField) == [k \in 1 .. (IF Len(s) > 8 THEN Len(s) ELSE 8) |-> IF k <= Len(s) THEN SlotNorm(s[k], offField) ELSE <<>>]
 
 \* Functional normal form.  fam = "v1" | "v2"; fb = the schema has a file-size column (>= 1.15.0, all 2.x)
 NormF(fam, fb, f, v) ==
@@ -58,7 +59,7 @@ FieldOK(fam, fb, f, in, out) ==
 
 -----------------------------------------------------------------------------
 (* Snapshots the library must reject rather than store in a form that reads back differently *)
-SlotsBad(fam, s) == \/ Len(s) > 8
+SlotsBad(fam, s) == \/ (fam = "v2" /\ Len(s) > 8)              \* the 2.x blob conversion has exactly eight slots
                     \/ \E k \in DOMAIN s : s[k] # <<>> /\ (s[k][1].len > 255 \/ (fam = "v1" /\ s[k][1].len = 0))
 GridBad(fam, g) == fam = "v1" /\ g.n # 0 /\ (g.n < 2 \/ g.n > 32768 \/ ~g.sorted)
 MustReject(fam, in, hasExt) ==
